@@ -16,7 +16,7 @@ RULE = ('case = sequence of 8-40 operations (get, get_or_compute, forced, raisin
         'every computed value unique. non-trivial = sequence containing a hit after a store AND (a damage op followed by an access, or a '
         'sub-cache/other-key access between store and hit); distinct = hash(op sequence)')
 REQUIRED = ['ops', 'hits', 'computes', 'forced_replacements', 'get_absent', 'get_present', 'raising_computers', 'damage_then_access',
-            'truncations_recovered', 'swaps_reported', 'subcache_ops', 'roundtrips_checked', 'wrong_shape_json_recovered']
+            'truncations_recovered', 'swaps_reported', 'subcache_ops', 'roundtrips_checked', 'wrong_shape_json_recovered', 'held_values_rechecked']
 ASSUMPTIONS = ['a damaged file that still loads to exactly the stored value counts as intact',
                'swap (foreign-key file) is only applied to JsonCache, the only cache type that records the key',
                'which exception type reports a foreign-key file is not checked; InMemoryCache is used from one thread']
@@ -43,8 +43,15 @@ def gen_payload(rng, kind, uid):
         return pd.DataFrame({'uid': [uid] * max(n, 1), 'x': list(range(max(n, 1))), 's': ['é'] * max(n, 1)})
     if kind == 'npy':
         n = rng.choice([0, 1, 5, 200])
-        dt = rng.choice(['int64', 'float32', 'uint8', 'bool', '<U3'])
+        dt = rng.choice(['int64', 'float32', 'uint8', 'bool', '<U3', 'object'])
         import numpy as np
+        if dt == 'object':
+            # the cache stores with pickle and loads with allow_pickle=True: object arrays are in its domain
+            a = np.empty(n + 1, dtype=object)
+            a[0] = uid
+            for j in range(n):
+                a[j + 1] = [None, 'é', {'k': j}, 1.5][j % 4]
+            return a
         if dt == '<U3':
             return np.array([str(uid)] + ['ab'] * n)
         return np.concatenate([np.array([uid % 200]), np.arange(n) % 2]).astype(dt) if dt != 'bool' else np.array([bool(uid % 2)] + [True] * n)
@@ -108,6 +115,19 @@ def run_sequence(kind, ops, res: CaseResult):
         model = {}      # (sub, key) -> {'value': v, 'state': 'ok'|'damaged'|'foreign'|'maybe'}
         uid = [0]
         nontriv = {'hit': False, 'dmg_access': False, 'interleaved': False}
+        held = []       # (op index, value object handed out, canonical form when it was handed out)
+
+        def hold(i_, v_):
+            if v_ is not None and v_ is not tc.NO_VALUE and len(held) < 60:
+                held.append((i_, v_, tcanon(v_)))
+
+        def check_held(where):
+            for i_, v_, c_ in held:
+                res.count('held_values_rechecked')
+                if tcanon(v_) != c_:
+                    res.violate(f'{where}: the value handed out by op#{i_} changed afterwards (now {short(v_)}) although the caller did not touch it', witness=wit)
+                    return False
+            return True
         last_store = {}
 
         def cache_for(sub):
@@ -167,6 +187,7 @@ def run_sequence(kind, ops, res: CaseResult):
                     exc = None
                 except Exception as e:
                     got, exc = None, e
+                hold(i, got)
                 if ent is None:
                     res.count('get_absent')
                     if exc is not None or got is not tc.NO_VALUE:
@@ -216,6 +237,10 @@ def run_sequence(kind, ops, res: CaseResult):
                 exc = None
             except Exception as e:
                 got, exc = None, e
+            if kind != 'memory' or not calls:
+                hold(i, got)
+            if not check_held(here):
+                return
             state = ent['state'] if ent else 'absent'
             if state == 'foreign' and not force:
                 res.count('damage_then_access')
@@ -284,6 +309,8 @@ def run_sequence(kind, ops, res: CaseResult):
             if got is tc.NO_VALUE or tcanon(got) != tcanon(ent['value']):
                 res.violate(f'final sweep: sub-cache {sub} key {key[:30]!r} returns {short(got)}, stored {short(ent["value"])}', witness=wit)
                 return
+        if not check_held('end of sequence'):
+            return
         if nontriv['hit'] and (nontriv['dmg_access'] or nontriv['interleaved']):
             res.nt(jhash(wit))
     finally:
